@@ -43,6 +43,8 @@ type RunOpts struct {
 	Virtual bool
 	// record observations in the trace (C12)
 	Trace bool
+	// no observation checks while running (golden generation on the pinned release)
+	NoObs bool
 }
 
 type Env struct {
@@ -1499,13 +1501,35 @@ func (e *Env) Run() {
 		if e.reopened && op.Op != "reopen" && op.Op != "abandonReopen" {
 			e.flag("op-after-reopen")
 		}
+		if e.opts.NoObs {
+			continue
+		}
 		if e.opts.SweepEveryOp || op.Op == "reopen" || op.Op == "abandonReopen" {
 			e.Check(fmt.Sprintf("after op %d (%s)", i, op.Op))
 		} else {
 			e.lightCheck(fmt.Sprintf("after op %d (%s)", i, op.Op))
 		}
 	}
-	e.Check("end of program")
+	if !e.opts.NoObs {
+		e.Check("end of program")
+	}
+}
+
+// EnvFromDir opens an existing database directory (already copied to a
+// private root) whose expected contents are given by model.
+func EnvFromDir(t TB, prog *Program, opts RunOpts, root string, m *Model, order []string) *Env {
+	e := &Env{t: t, prog: prog, cfg: prog.Cfg, opts: opts, ord: map[string]int{}, flags: map[string]int{}}
+	e.root = root
+	e.m = m
+	for _, id := range order {
+		e.note(id)
+	}
+	sod.LowercaseNames = e.cfg.Lower
+	e.db = sod.Open(e.root)
+	for i := 0; i < 2; i++ {
+		e.absent = append(e.absent, seedUUID(0xabcdef0000000000+uint64(i)))
+	}
+	return e
 }
 
 // lightCheck: object-level read paths only (no searches).
